@@ -145,6 +145,13 @@ def check_unit(template, tree, seed=None, canary=True, tag=""):
     name = os.path.splitext(os.path.basename(template))[0]
     res = UnitResult(name)
     os.makedirs(VWORK, exist_ok=True)
+    head = open(template).read(3000)
+    mu = re.search(r"^//@ unit:\s*(\S+)", head, re.M)
+    mp = re.search(r"^//@ props:(.*)$", head, re.M)
+    if mu:
+        res.unit = mu.group(1)
+    if mp:
+        res.props = mp.group(1).split()
     try:
         gen = extract.expand(template, tree)
     except LostAnchor as e:
